@@ -212,6 +212,20 @@ def run(ctx):
         n_scope += 1
         cases.append(make_case(it["key"], "catalogue", it["value"], f"C17:{it['key']}"))
     ctx.coverage["catalogue_in_scope"] = n_scope
+    # the printer must be a function of the expression: render the catalogue again in reverse order, same process
+    n_order = 0
+    for c in reversed([c for c in cases if c["origin"] == "catalogue" and c["s"] is not None]):
+        try:
+            again = code_str(c["expr"])
+        except Exception as e:  # pylint: disable=broad-except
+            again = f"<raises {type(e).__name__}>"
+        n_order += 1
+        if again != c["s"]:
+            ctx.violation(f"C17:order:{c['key']}", f"rendering of {c['key']} depends on what was printed before: "
+                f"{c['s']!r} in catalogue order, {again!r} when printed again in reverse order",
+                {"kind": "violation", "item": c["key"], "origin": "catalogue", "rendering": c["s"],
+                 "rendering_second_pass": again, "original": str(c["expr"])}, found_input=True)
+    ctx.coverage["order_independence_rerenders"] = n_order
     ctx.coverage["catalogue_out_of_scope_no_symbol_directive"] = out_of_scope
 
     # (ii) canonical expression space, sampled
